@@ -26,6 +26,9 @@ Corpus == CASE Layer = "SCRIPT3" -> UpTo(ScriptCmds, 3) [] Layer = "SCRIPT4" -> 
             [] Layer = "SOLVER3" -> UpTo(SolverCmds, 3) [] Layer = "SOLVER4" -> Hists(SolverCmds, 4)
             [] Layer = "SOLVER5" -> Hists(SolverCmds, 5)
             [] Layer = "SLS3" -> UpTo(SlsCmds, 3) [] Layer = "SLS4" -> Hists(SlsCmds, 4)
+            \* declaration scoping: every legal history that opens levels first, over asserts (sharing symbols) / push / pop
+            [] Layer = "SLSDECL4" -> {h \in Hists(SlsDeclCmds, 4) : h[1].c = "push"}
+            [] Layer = "SLSDECL5" -> {h \in Hists(SlsDeclCmds, 5) : h[1].c = "push"}
 
 VARIABLE done
 Init == done = FALSE /\ LET c == SetToSeq(Corpus)
